@@ -9,7 +9,16 @@ import (
 
 func genCType(rt *rapid.T, forceValued bool) CType {
 	ct := CType{HasBool: chance(rt, 1, 2, "hasB"), BoolResult: chance(rt, 2, 3, "boolres"), HasClear: chance(rt, 1, 2, "hasC"), HasDefault: chance(rt, 1, 2, "hasD")}
+	if chance(rt, 1, 5, "otherkind") {
+		ct.Kind = 1 + intn(rt, 2, "kind")
+		ct.HasBool, ct.HasClear, ct.HasDefault = true, true, true
+		st := StatsFor("C19")
+		st.Class("type:map-or-slice-struct-kind-by-value")
+	}
 	if forceValued {
+		if ct.Kind != 0 {
+			ct.BoolResult = false
+		}
 		ct.HasBool = ct.HasBool && !ct.BoolResult
 	}
 	if chance(rt, 1, 4, "fails") {
@@ -37,7 +46,9 @@ func TestC19(t *testing.T) {
 		}
 		for range d.Args {
 			ct := genCType(rt, true)
-			ct.HasBool = false
+			if ct.Kind == 0 {
+				ct.HasBool = false
+			}
 			c.ArgTypes = append(c.ArgTypes, ct)
 		}
 		var ast *Node
